@@ -9,7 +9,10 @@ B  tie: Lean `infer` vs the real `model_from_headers` (walk of `__fields__`: nam
 C  direct oracle: for every schema the EXPLICIT twin (pydantic `create_model`, built from the
    schema, never from header text) and the INFERRED model parse the same rows through the real
    RowParser + CellParser; `row.dict()` must agree (type-sensitive), and the inferred structure
-   must not depend on the cells (end to end through ContentIndexParser with a blank data_model).
+   must not depend on the cells (end to end through ContentIndexParser with a blank data_model),
+   nor on other copies of the sheet: with several input files (CompositeSheetReader) holding a
+   sheet of that name under different header rows, in both orders of the files, the rows and the
+   structure are those of the explicit twin of the copy that is read (the last file that has it).
 """
 from __future__ import annotations
 
@@ -19,7 +22,7 @@ import random
 from .. import core, par
 
 MANIFEST = dict(
-    text="Proof: over a line-by-line Lean model of model_inference.py, for ALL inputs (structural induction on the schema tree, no bound on depth or width): infer_render = C18_full (every schema of the family - basic fields with defaults, list/List[T], sub-records a.b, indexed lists a.1,a.2 with per-index defaults, lists of records, lists of lists, nested to any depth - rendered to its canonical header list is inferred back EXACTLY: names, order, types, defaults); infer_order_insensitive (for every such schema with its fields in ANY order (InFamilyU) and ANY permutation of its header list - interleaved fields, column-major lists of records, split sub-records/lists, list entries out of order, at any depth - inference succeeds and yields the schema up to the order of the fields of each record; TyEquiv = equal after sorting the fields of every record by name, proved an equivalence relation (tyEquiv_equivalence), sound (tyEquiv_of_perm) and not coarser than that (tyEquiv_model_names, tyEquiv_distinguishes)); corollaries for the column orders the harness generates (infer_column_moved, infer_adjacent_swap, infer_sorted_columns, infer_perm_agree, infer_perm_vs_canonical); inferred_parses_like_explicit (every row - any cells - parses under the inferred model to exactly the outcome under the explicit model, over the RowParser model of C07/C09); header_roundtrip; infer_cells_independent; non-vacuity examples and one kernel-checked negative witness per clause of InFamily/InFamilyU (needs_*), needs_up_to_field_order, needs_distinct_names, needs_same_columns; index_order_not_needed + row_parser_asserts_index_order (the increasing-index condition is RowParser.find_entry's, not model_from_headers'). Tie: Lean infer vs real model_from_headers (walk of __fields__: names, types, defaults) on rendered schemas in canonical, restyled and non-contiguous column orders and on a malformed-header stream. Direct oracle: inferred model vs explicit pydantic twin on generated rows through the real RowParser/CellParser (all three spellings/orders), plus the ContentIndexParser fallback end to end.",
+    text="Proof: over a line-by-line Lean model of model_inference.py, for ALL inputs (structural induction on the schema tree, no bound on depth or width): infer_render = C18_full (every schema of the family - basic fields with defaults, list/List[T], sub-records a.b, indexed lists a.1,a.2 with per-index defaults, lists of records, lists of lists, nested to any depth - rendered to its canonical header list is inferred back EXACTLY: names, order, types, defaults); infer_order_insensitive (for every such schema with its fields in ANY order (InFamilyU) and ANY permutation of its header list - interleaved fields, column-major lists of records, split sub-records/lists, list entries out of order, at any depth - inference succeeds and yields the schema up to the order of the fields of each record; TyEquiv = equal after sorting the fields of every record by name, proved an equivalence relation (tyEquiv_equivalence), sound (tyEquiv_of_perm) and not coarser than that (tyEquiv_model_names, tyEquiv_distinguishes)); corollaries for the column orders the harness generates (infer_column_moved, infer_adjacent_swap, infer_sorted_columns, infer_perm_agree, infer_perm_vs_canonical); inferred_parses_like_explicit (every row - any cells - parses under the inferred model to exactly the outcome under the explicit model, over the RowParser model of C07/C09); header_roundtrip; infer_cells_independent; non-vacuity examples and one kernel-checked negative witness per clause of InFamily/InFamilyU (needs_*), needs_up_to_field_order, needs_distinct_names, needs_same_columns; index_order_not_needed + row_parser_asserts_index_order (the increasing-index condition is RowParser.find_entry's, not model_from_headers'). Tie: Lean infer vs real model_from_headers (walk of __fields__: names, types, defaults) on rendered schemas in canonical, restyled and non-contiguous column orders and on a malformed-header stream. Direct oracle: inferred model vs explicit pydantic twin on generated rows through the real RowParser/CellParser (all three spellings/orders), plus the ContentIndexParser fallback end to end, incl. several input files (CompositeSheetReader of 2-4 readers) that hold the data sheet under different header rows (untyped / retyped / renamed / reshaped / unrelated copy), each in both orders of the files: expected is the explicit twin of the copy that is read (the last file that has the sheet).",
     ref="§5 C18",
     note="The theorems cover the canonical spelling of the headers (what renderHeaders writes) in every column order; restyled spellings (blanks around : and =, explicit :str, explicit zero defaults, True/TRUE) are covered by the tie and oracle C only. inferred_parses_like_explicit is a congruence (same model => same parse) through rowSchema, the translation of an inferred model into the RowParser model's schema type (plain ParserModel: identity remaps, every field defaulted; float defaults as text): that translation is a Lean definition, not tied to the real code - equality of row.dict() on the real code is established by oracle C on generated rows. Not proved: for a NON-canonical column order the row outcome under the inferred model equals the explicit one up to field order (needs field-order invariance of RowParser on leaf-addressed columns); checked by oracle C on the interleaved orders. Trusts: Lean kernel (axioms audited each run), the differential harness and Driver JSON codec, pydantic v1 create_model/field defaults, CPython int()/str.split/strip as modelled (ASCII digits; digit strings with '_' or Unicode digits answered 'unsupported' and skipped by the tie). Fractional float defaults (x:float=1.5) are not representable in the Lean Val (integer-valued) and go through oracle C only. Former finding F-C18-a (a default containing '.') was fixed in /repo; dotted defaults are in the main stream (the family predicate stays conservative about them).",
     technique="Lean 4 proof (string/annotation lemmas, header classification, induction on the size of the nested schema type, permutation invariance via grouping/lookup specifications and sorted normal forms) + model/code correspondence + differential oracle against an explicit pydantic twin",
@@ -39,6 +42,7 @@ NAMES = [
 ]
 STR_DEFAULTS = ["", "", "x", "hello world", "a=b", "=", "日本", "a|b", "a;b", "true", "5", "-", "FALSE", "a\\b", "{x}", "a.b", "1.5", "v1.2.3", "e.g."]
 LONG_P = 0.12   # share of indexed lists with 10-12 entries
+MULTI_P = 0.4   # share of content-index cases that also put the sheet into several input files
 FLOAT_LITERALS = ["1.5", "-0.25", "2.0", "0.5", "10.75"]
 INT_DEFAULTS = [0, 0, 1, 5, -3, 42, 1000000, -1, 7]
 ANN_ELEMS = ["str", "int", "float", "bool", "list", {"list": "str"}, {"list": "int"}]
@@ -772,6 +776,10 @@ def ci_worker(job):
 
     rng = random.Random(seed)
     res = {"n": 0, "viol": [], "strata": {}, "keys": []}
+
+    def cnt(k, d=1):
+        res["strata"][k] = res["strata"].get(k, 0) + d
+
     for _ in range(n):
         fs = [["ID", "str", {"s": ""}]] + [f for f in gen_fields(rng, rng.randint(0, maxdepth), rng.randint(1, 4)) if f[0] != "ID"]
         hdrs = render(fs)
@@ -828,8 +836,217 @@ def ci_worker(job):
                 res["viol"].append({"what": "data sheet without data_model: structure differs from model_from_headers(headers)", "headers": headers, "rows": rowsets[variant], "got": walks[variant], "expected": exp_walk})
         if walks[0] is not None and walks[1] is not None and walks[0] != walks[1]:
             res["viol"].append({"what": "inferred structure depends on cell contents (same headers, different cells)", "headers": headers, "rows_a": rowsets[0], "rows_b": rowsets[1], "fields_a": walks[0], "fields_b": walks[1]})
-    res["viol"] = sorted(res["viol"], key=lambda v: len(json.dumps(v, default=str)))[:10]
+        if rng.random() < MULTI_P:
+            multi_file_check(rng, fs, maxdepth, res, cnt)
+    # differing rows (the property's own observable) before differing structure, small before large
+    res["viol"] = sorted(res["viol"], key=lambda v: (0 if "explicit" in v else 1, len(json.dumps(v, default=str))))[:10]
     return res
+
+
+# ------------------------------------------------------------------ several input files holding the sheet
+# `rpft … base override`: every input file is a reader of a CompositeSheetReader; a sheet present in
+# several files is read from the LAST file that has it (ContentIndexParser._get_sheet_or_die takes
+# candidates[-1] of CompositeSheetReader.get_sheets_by_name, which lists the readers in input order).
+# The model of a data sheet without data_model must be the one denoted by the headers of THAT copy.
+
+COPY_KINDS = ["untyped", "retyped", "renamed", "reshaped", "independent"]
+
+
+def _untype_td(T, V):
+    """same columns, annotations dropped: every leaf a plain text column without default"""
+    if isinstance(T, dict) and "model" in T:
+        fs = [[n, *_untype_td(t, v)] for n, t, v in T["model"]]
+        return {"model": fs}, default_record(fs)
+    if isinstance(T, dict) and V["l"]:
+        pairs = [_untype_td(T["list"], d) for d in V["l"]]
+        if len({json.dumps(p[0], sort_keys=True) for p in pairs}) > 1:
+            return T, V      # list of lists with empty and non-empty entries: left as it is
+        return {"list": pairs[0][0]}, {"l": [p[1] for p in pairs]}
+    return "str", {"s": ""}
+
+
+def _retype_td(rng, T, V):
+    """same columns, other leaf types / defaults"""
+    if isinstance(T, dict) and "model" in T:
+        fs = [[n, *_retype_td(rng, t, v)] for n, t, v in T["model"]]
+        return {"model": fs}, default_record(fs)
+    if isinstance(T, dict) and V["l"]:
+        t = T["list"]
+        if isinstance(t, dict):
+            pairs = [_retype_td(rng, t, d) for d in V["l"]]
+            if len({json.dumps(p[0], sort_keys=True) for p in pairs}) == 1:
+                return {"list": pairs[0][0]}, {"l": [p[1] for p in pairs]}
+            return T, V
+        t2 = rng.choice(BASIC)
+        return {"list": t2}, {"l": [gen_basic_default(rng, t2) for _ in V["l"]]}
+    if rng.random() < 0.25:
+        return T, V
+    t2 = rng.choice(BASIC + ["list", {"list": rng.choice(BASIC)}])
+    return t2, (gen_basic_default(rng, t2) if isinstance(t2, str) and t2 != "list" else {"l": []})
+
+
+def copy_of_sheet(rng, fs, maxdepth, kind):
+    """another version of the sheet `fs` (an older / overriding copy kept in another file); ID first."""
+    body = [f for f in fs if f[0] != "ID"]
+    if kind == "untyped":
+        out = [[n, *_untype_td(T, V)] for n, T, V in body]
+    elif kind == "retyped":
+        out = [[n, *_retype_td(rng, T, V)] for n, T, V in body]
+    elif kind == "renamed":
+        free = [x for x in NAMES if x not in {f[0] for f in body} and x != "ID"]
+        out = [list(f) for f in body]
+        for i in rng.sample(range(len(out)), rng.randint(1, len(out))):
+            out[i][0] = free.pop(rng.randrange(len(free)))
+        if rng.random() < 0.5:
+            out.append([free.pop(rng.randrange(len(free))), *gen_td(rng, 0)])
+    elif kind == "reshaped":
+        # a column becomes a nested field (f -> f.1, f.2 / f.a, f.b) or a nested field one column
+        out = [list(f) for f in body]
+        i = rng.randrange(len(out))
+        n, T, V = out[i]
+        if is_simple(T, V):
+            t = T if T in BASIC else "str"
+            if rng.random() < 0.5:
+                out[i] = [n, {"list": t}, {"l": [gen_basic_default(rng, t) for _ in range(rng.randint(1, 3))]}]
+            else:
+                sub = [[nm, t, gen_basic_default(rng, t)] for nm in rng.sample(["a", "b", "value", "x1"], rng.randint(1, 2))]
+                out[i] = [n, {"model": sub}, default_record(sub)]
+        else:
+            t = rng.choice(BASIC)
+            out[i] = [n, t, gen_basic_default(rng, t)]
+    else:
+        out = [f for f in gen_fields(rng, rng.randint(0, maxdepth), rng.randint(1, 4)) if f[0] != "ID"]
+    return [["ID", "str", {"s": ""}]] + out
+
+
+def sheet_copy(rng, fs, tag):
+    """one copy of the data sheet: headers (possibly non-contiguous), rows with distinct IDs"""
+    hdrs = render(fs)
+    if rng.random() < 0.3:
+        hdrs = interleave(hdrs, rng) or hdrs
+    headers = [h for h, _ in hdrs]
+    rows = []
+    for i, (_k, row) in enumerate(gen_rows(rng, hdrs, 3)[: rng.randint(1, 2)] + [("conforming", {h: gen_cell(rng, lt, 0.0) for h, lt in hdrs})]):
+        row = {h: row.get(h, "") for h in headers}
+        row["ID"] = f"{tag}{i}"
+        rows.append(row)
+    return {"schema": fs, "headers": headers, "rows": rows}
+
+
+CI_HEADERS = ["type", "sheet_name", "data_sheet", "data_row_id", "new_name", "data_model", "status"]
+
+
+def load_files(files):
+    """files = [{"reader": name, "sheets": {sheet: {"headers": […], "rows": [[…]…]}}}] -> ContentIndexParser
+    over a CompositeSheetReader of in-memory readers, in this order (as `rpft … file1 file2 …` builds it)."""
+    import tablib
+    from rpft.parsers.creation.contentindexparser import ContentIndexParser
+    from rpft.parsers.sheets import AbstractSheetReader, CompositeSheetReader, Sheet
+
+    class Reader(AbstractSheetReader):
+        def __init__(self, name, tables):
+            self.name = name
+            self._sheets = {k: Sheet(reader=self, name=k, table=t) for k, t in tables.items()}
+
+    comp = CompositeSheetReader()
+    for f in files:
+        tables = {}
+        for sname, sh in f["sheets"].items():
+            t = tablib.Dataset(headers=list(sh["headers"]))
+            for r in sh["rows"]:
+                t.append(list(r))
+            tables[sname] = t
+        comp.add_reader(Reader(f["reader"], tables))
+    from ..flows import LogCapture
+
+    with LogCapture() as logs:        # "Duplicate sheets found" warnings are expected here
+        p = ContentIndexParser(comp)
+    if logs.criticals():
+        raise RuntimeError("CRITICAL logged: " + logs.criticals()[0][:200])
+    return p
+
+
+def multi_file_cases(rng, fs, maxdepth, cnt):
+    """the sheet `mydata` held by two or three input files with different header rows; every case is
+    (files, active copy) in one order of the files and in the reverse order."""
+    kinds = [rng.choice(COPY_KINDS)]
+    if rng.random() < 0.25:
+        kinds.append(rng.choice(COPY_KINDS))
+    copies = [sheet_copy(rng, fs, "r")]
+    for j, kind in enumerate(kinds):
+        c = sheet_copy(rng, copy_of_sheet(rng, fs, maxdepth, kind), "qs"[j])
+        c["kind"] = kind
+        copies.append(c)
+    if len({json.dumps(c["headers"], ensure_ascii=False) for c in copies}) < len(copies):
+        cnt("multi.skipped_same_headers")     # e.g. the untyped copy of an untyped sheet
+        return []
+    for kind in kinds:
+        cnt("multi.copy_" + kind)
+    cnt(f"multi.files_with_the_sheet={len(copies)}")
+    rng.shuffle(copies)
+    where = rng.choice(["first", "last", "own_first", "own_last", "all"])   # which file(s) hold the content index
+    cnt("multi.content_index_in_" + where)
+    tail = rng.random() < 0.3          # a last file WITHOUT the sheet: the active copy is not in the last file
+    if tail:
+        cnt("multi.last_file_lacks_the_sheet")
+    ci = {"headers": CI_HEADERS, "rows": [["data_sheet", "mydata", "", "", "", "", ""]]}
+    other = {"headers": ["ID", "v:int"], "rows": [["z", "1"]]}
+    cases = []
+    for direction, order in (("given", copies), ("reversed", copies[::-1])):
+        files = [{"reader": f"file{i + 1}", "sheets": {"mydata": {"headers": c["headers"], "rows": [[r[h] for h in c["headers"]] for r in c["rows"]]}}}
+                 for i, c in enumerate(order)]
+        if tail:
+            files.append({"reader": f"file{len(files) + 1}", "sheets": {"unrelated": other}})
+        if where == "own_first":
+            files.insert(0, {"reader": "index", "sheets": {}})
+        if where == "own_last":
+            files.append({"reader": "index", "sheets": {}})
+        holders = {"first": files[:1], "last": files[-1:], "own_first": files[:1], "own_last": files[-1:], "all": files}[where]
+        for f in holders:
+            f["sheets"] = dict(f["sheets"], content_index=ci)
+        cases.append((direction, files, order[-1]))
+    return cases
+
+
+def multi_file_check(rng, fs, maxdepth, res, cnt):
+    for direction, files, active in multi_file_cases(rng, fs, maxdepth, cnt):
+        cnt("multi.cases")
+        cnt("multi.order_" + direction)
+        res["keys"].append(json.dumps([f["sheets"].get("mydata", {}).get("headers") for f in files], ensure_ascii=False))
+        explicit = build_explicit(active["schema"])
+        exp, bad = [], False
+        for row in active["rows"]:
+            o = parse_outcome(explicit, row)
+            if o[0] != "ok":
+                bad = True
+                break
+            exp.append(o[1])
+        try:
+            ds = load_files(files).data_sheets["mydata"]
+            walk = walk_model(ds.row_model)
+            got = ["ok", [canon(r.dict()) for r in ds.rows.values()]]
+        except Exception as e:  # noqa: BLE001
+            walk, got = None, ["exc", type(e).__name__, str(e)[:200]]
+        detail = {"files": files, "active_file": next(f["reader"] for f in files[::-1] if "mydata" in f["sheets"]),
+                  "schema": active["schema"], "headers": active["headers"]}
+        if bad:
+            cnt("multi.rows_rejected_by_explicit")
+            if got[0] == "ok":
+                res["viol"].append(dict(detail, what="several files hold the data sheet: accepted under the inferred model but rejected by the explicit model of the copy that is read"))
+            continue
+        real, _m = real_infer(active["headers"])
+        exp_walk = real["ok"]["model"] if "ok" in real and isinstance(real["ok"], dict) and "model" in real["ok"] else None
+        if got != ["ok", exp]:
+            res["viol"].append(dict(detail, what="several files hold the data sheet: its rows differ from those of the explicit model denoted by the headers of the copy that is read (the last file that has the sheet)",
+                                    inferred=got, explicit=exp))
+        elif walk != exp_walk:
+            # the sheet's own rows happen to agree; shown at the property's observable by a row of the
+            # same sheet that leaves every column but ID out (defaults) under both models
+            probe = {"ID": "probe"}
+            res["viol"].append(dict(detail, what="several files hold the data sheet: the inferred structure is not the one denoted by the headers of the copy that is read",
+                                    got=walk, expected=exp_walk, row=probe, row_inferred=parse_outcome(ds.row_model, probe), row_explicit=parse_outcome(explicit, probe)))
+        else:
+            cnt("multi.agree")
 
 
 # ------------------------------------------------------------------ known finding F-C18-a
@@ -914,8 +1131,11 @@ def run(ck: core.Check):
         "spelling and in a non-contiguous column order (random interleaving / column-major lists of records / split sub-records and lists, "
         "list entries still opened in increasing order); "
         "each rendered canonically and in a restyled "
-        "spelling; rows: conforming / with blanks / with columns omitted; a case is non-trivial always (≥1 field); distinct = "
-        "distinct header lists"
+        "spelling; rows: conforming / with blanks / with columns omitted; content-index stream: a data_sheet row with blank data_model over one in-memory reader, "
+        "and for 40% of the cases also over a CompositeSheetReader of 2-4 input files of which two or three hold the sheet under different header rows "
+        "(copy kinds: untyped = same columns without annotations, retyped = other leaf types/defaults, renamed columns, reshaped = a column turned into "
+        "a nested field or back, independent schema), run in one order of the files and in the reverse order, content index in the first / last / an own / every file, "
+        "30% with a last file that lacks the sheet; a case is non-trivial always (≥1 field); distinct = distinct header lists"
     )
     ck.assumptions = [
         "pydantic v1: create_model keeps field order, defaults are returned by .dict() when a field is absent (exercised by oracle C)",
@@ -966,7 +1186,9 @@ def run(ck: core.Check):
     # self-check of the distribution
     need = ["schema.has_list_of_records", "schema.has_record", f"schema.depth={maxdepth}", "rows.omitted", "rows.blanks", "schema.InFamily",
             "schema.InFamilyU", "schema.InFamilyU_with_interleaved_order",
-            "schema.has_indexed_list_of_10+", "schema.has_dotted_default", "order.non_contiguous"]
+            "schema.has_indexed_list_of_10+", "schema.has_dotted_default", "order.non_contiguous",
+            "multi.order_given", "multi.order_reversed", "multi.files_with_the_sheet=2", "multi.files_with_the_sheet=3",
+            "multi.last_file_lacks_the_sheet"] + ["multi.copy_" + k for k in COPY_KINDS]
     missing = [s for s in need if not ck.strata.get(s)]
     if missing:
         raise core.Infra(f"generator self-check: strata never hit: {missing}")
@@ -1036,6 +1258,29 @@ def replay(path):
     rec = json.load(open(path))
     print(json.dumps(rec, indent=1, ensure_ascii=False)[:6000])
     rp = rec.get("replay", {})
+    if "files" in rp:
+        # several input files holding the data sheet: read them again, in the recorded order
+        explicit = build_explicit(rp["schema"])
+        act = next(f for f in rp["files"][::-1] if f["reader"] == rp["active_file"])["sheets"]["mydata"]
+        exp = [parse_outcome(explicit, dict(zip(act["headers"], r))) for r in act["rows"]]
+        real, _m = real_infer(act["headers"])
+        exp_walk = real["ok"]["model"] if "ok" in real and isinstance(real["ok"], dict) and "model" in real["ok"] else None
+        walk = None
+        try:
+            ds = load_files(rp["files"]).data_sheets["mydata"]
+            got = [["ok", canon(r.dict())] for r in ds.rows.values()]
+            walk = walk_model(ds.row_model)
+            if "row" in rp:
+                print("probe row inferred:", parse_outcome(ds.row_model, rp["row"]))
+                print("probe row explicit:", parse_outcome(explicit, rp["row"]))
+        except Exception as e:  # noqa: BLE001
+            got = ["exc", type(e).__name__, str(e)[:300]]
+        print("active copy     :", rp["active_file"], json.dumps(act["headers"], ensure_ascii=False))
+        print("inferred fields :", json.dumps(walk, ensure_ascii=False))
+        print("denoted fields  :", json.dumps(exp_walk, ensure_ascii=False))
+        print("inferred :", json.dumps(got, ensure_ascii=False))
+        print("explicit :", json.dumps(exp, ensure_ascii=False))
+        return 0 if got == exp and walk == exp_walk else 1
     if "headers" in rp:
         real, inferred = real_infer(rp["headers"])
         print("model_from_headers ->", json.dumps(real, ensure_ascii=False))
